@@ -209,12 +209,9 @@ impl<'a> Reader<'a> {
         // outputs of the same build id; if not, that means the graph has
         // changed since this log, in which case we just ignore it.
         //
-        // It's possible we log a build that generates files A B, then
-        // change the build file such that it only generates file A; this
-        // logic will still attach the old dependencies to A, but it
-        // shouldn't matter because the changed command line will cause us
-        // to rebuild A regardless, and these dependencies are only used
-        // to affect dirty checking, not build order.
+        // If we logged a build that generates files A B, and the build file
+        // has since changed such that it only generates file A, the record
+        // is ignored as well.
 
         let mut unique_bid = None;
         let mut obsolete = false;
@@ -227,6 +224,8 @@ impl<'a> Reader<'a> {
             }
             match self.graph.file(self.ids.fileids[fileid]).input {
                 None => {
+                    // No longer generated by any build.
+                    unique_bid = None;
                     obsolete = true;
                 }
                 Some(bid) => {
